@@ -2,7 +2,12 @@
 
 Tie: the REAL threaded socketio.Server is run under the deterministic thread scheduler of
 drivers/sched_srv.py (pre-emption in front of every access the terminating paths make to the
-client manager, to eio.send, to the disconnect handler and to server.environ).  Every run is
+client manager, to eio.send, to the disconnect handler, to server.environ and to
+server._disconnect_lock, which is replaced on the instance by a lock that never blocks for real:
+a thread waiting for it is simply not enabled).  A probe decides which code is under test: with
+the lock around is_connected + pre_disconnect the runs are compared with the model granularity
+GLocked, without it (the code before the repair, or a tree from which the lock was removed)
+with GThread - there the two signatures `double-check-window-*` reappear.  Every run is
 printed as a Gallina `ccase` (scenario, schedule, observed label trace, final listings); inside
 Coq the model of coq/Conc/ServerConc.v is run on the same scenario and schedule
 (correspondence, bit 1) and the property checker of coq/Check/C20Check.v is evaluated on what
@@ -98,6 +103,8 @@ def lbl_term(l):
             return '(LEnv %s %s)' % (_s(l[1]), cbool(l[2]))
         if k == 'Raise':
             return '(LRaise %s)' % l[1]
+        if k == 'Acquire':
+            return 'LAcquire'
         if k == 'Other':
             return '(LOther %d)' % l[1]
     except (Unprintable, IndexError, TypeError):
@@ -195,6 +202,22 @@ WITNESSES = [
     ('handler_twice', scenario(LONE, ['api', 'cli']), [0, 1, 1, 0, 1, 0, 1, 0, 1, 0], 4 | 256),
     ('keyerror_leftover', scenario(LONE, ['api', 'cli']), [0, 1, 1, 1, 1, 1, 0], 16 | 32 | 256 | 512),
 ]
+
+
+def probe_locked():
+    """Which threaded code is under test: does it take server._disconnect_lock around
+    is_connected + pre_disconnect (-> model granularity GLocked) or not (-> GThread, the code
+    before the repair)?  Decided by what one disconnect() and one DISCONNECT packet do."""
+    seen = []
+    for names in (('api',), ('cli',)):
+        r = S.run_threads(scenario(LONE, names), [], extend=lambda en: en[0])
+        seen.append(any(l == ('Acquire',) for step in r.trace for l in step))
+    return all(seen), seen
+
+
+def thread_gran():
+    locked, seen = probe_locked()
+    return ('GLocked' if any(seen) else 'GThread'), seen
 
 
 def plan(thorough):
@@ -367,7 +390,8 @@ TRUSTED = [
     'harness/drivers/sched_srv.py: baton scheduler / gate trampoline; real socketio.Server / AsyncServer over real '
     'engineio Socket / AsyncSocket objects built by hand (no HTTP); engineio generate_id replaced by a counter',
     'choice of atomic steps: one per call of manager.get_namespaces / sid_from_eio_sid / is_connected / pre_disconnect / '
-    'disconnect, eio.send, the disconnect handler, `eio_sid in environ` (threads: each such call is atomic, i.e. the '
+    'disconnect, eio.send, the disconnect handler, `eio_sid in environ`, acquiring server._disconnect_lock (replaced by '
+    'drivers.sched_srv.ILock: mutual exclusion is enforced by the scheduler) (threads: each such call is atomic, i.e. the '
     'scheduler does not pre-empt INSIDE is_connected or basic_disconnect; finer pre-emption can only add behaviours)',
     'engine.io reports the loss of one transport once; it contains exceptions of the message / disconnect handlers '
     '(they are observed where they leave python-socketio)']
@@ -384,7 +408,11 @@ def run(chk):
         'disconnect handlers do not call back into the server API; a scripted handler may raise',
         'thread pre-emption inside one manager call is not explored (see trusted base)']
     chk.prove(targets=['Check/C20Check.v'])
-    defs, cases, meta = collect(chk, 'threads', 'GThread', plan(chk.thorough), WITNESSES)
+    gran, seen = thread_gran()
+    chk.extra['variant'] = {'disconnect() takes _disconnect_lock': seen[0],
+                            '_handle_disconnect() takes _disconnect_lock': seen[1], 'model granularity': gran}
+    # the refutation witnesses are schedules of the code without the lock
+    defs, cases, meta = collect(chk, 'threads', gran, plan(chk.thorough), WITNESSES if gran == 'GThread' else [])
     judge(chk, 'c20', defs, cases, meta, 'c20-correspondence')
 
 
@@ -410,7 +438,7 @@ def replay_run(rp, tag):
     print('  final: %s alldone=%s error=%s' % (r.final, r.alldone, r.error))
     defs = Defs()
     r.kind = 'replay'
-    case = case_term('GThread' if mode == 'threads' else 'GAsync', defs.name(sc), r)
+    case = case_term(thread_gran()[0] if mode == 'threads' else 'GAsync', defs.name(sc), r)
     rc, out = coqio.eval_print(tag, IMPORTS, defs.text(), ['c20_eval %s' % case, 'c20_explain %s' % case])
     print(out)
     first = out.split('\n')[0] if out else ''
